@@ -2,7 +2,7 @@
 From Coq Require Import List ZArith NArith Bool Lia Permutation.
 From Coq Require Import ZifyBool ZifyN ZifyNat.
 From Verif Require Import Outcome.
-From C26 Require Import Model Proofs Select Reserve Inv.
+From C26 Require Import Model Proofs Select Reserve Inv Struct.
 Import ListNotations.
 Open Scope N_scope.
 
@@ -33,6 +33,23 @@ Lemma reachable_no_overlap_init conf contr unc h ops st rs :
   run_fits (init_state conf contr unc h) ops ->
   run (init_state conf contr unc h) ops = (st, rs) -> no_overlap st.
 Proof. apply reachable_no_overlap. apply inv_init. Qed.
+
+(* the same without any condition on amounts: only the reservation counter must not wrap,
+   which any history of fewer than 2^64 operations guarantees *)
+Lemma reachable_no_overlap_id st0 ops st rs :
+  inv st0 -> run_fits_id st0 ops -> run st0 ops = (st, rs) -> no_overlap st.
+Proof.
+  intros Hinv Hf Hr. apply inv_no_overlap. replace st with (fst (run st0 ops)) by (rewrite Hr; reflexivity).
+  apply run_inv_id; assumption.
+Qed.
+
+Lemma reachable_no_overlap_length conf contr unc h ops st rs :
+  N.of_nat (length ops) < two64 ->
+  run (init_state conf contr unc h) ops = (st, rs) -> no_overlap st.
+Proof.
+  intros Hl. apply reachable_no_overlap_id; [apply inv_init|].
+  apply run_fits_id_by_length. cbn [init_state next]. lia.
+Qed.
 
 (* ---- a successful reservation covers the request ------------------------------------------------ *)
 Lemma rsv_get_put r rs : rsv_get (rid r) (rsv_put r rs) = Some r.
@@ -104,11 +121,10 @@ Proof.
 Qed.
 
 Lemma reserve_failure_no_effect st acct asset amount uu vote exp ord st' e :
-  sumN (funds st acct asset uu vote) < two64 ->
   reserve true st acct asset amount uu vote exp ord = (st', RErr e) -> st' = st.
 Proof.
-  intros HF E. pose proof (reserve_analysis st acct asset amount uu vote exp ord HF) as H.
-  rewrite E in H. destruct e; tauto.
+  intros E. pose proof (reserve_structure st acct asset amount uu vote exp ord) as H.
+  rewrite E in H. exact H.
 Qed.
 
 Lemma reserve_no_panic st acct asset amount uu vote exp ord p :
